@@ -61,53 +61,19 @@ TECHNIQUE = ("Coq proof over event lists of a parameterised Close protocol machi
              "WaitGroup / channel wait), constructor scripts, regenerated goroutine inventory tied to the model by a table; exploration of the "
              "real components under testing/synctest with Close injected between released calls")
 LEVEL_TEXT = ("PARTIAL. Proved for all interleavings: Close returns only when nothing registered is alive and nothing is registered afterwards "
-              "(guarded protocols: standard/dual DHT, accelerated client, provider manager, sweeping provider, wrappers); further and concurrent "
-              "Close calls return without panic once the first has; the provider's lock+flag guard admits no registration after the flag; the "
-              "keystores' select-guarded Close is correct under sequential use; every constructor error point of nine constructors stops what was "
+              "(every component except the value store, whose StartGC is not ordered with Close); further and concurrent "
+              "Close calls return without panic once the first has; the lock+flag guard of the provider and of the refresh manager admits no "
+              "registration after the flag; every constructor error point of all eleven constructors stops what was "
               "started; every start site of the regenerated inventory is mapped to a class that Close awaits, that its caller joins, or that ends "
-              "by itself. Refuted with replayed witnesses: keystore Close under a concurrent second call (early return / double close), the refresh "
-              "manager's unguarded WaitGroup registration (panic in Close), provider/dual.New and fullrt.NewFullRT error/panic paths, (the reset "
-              "handshake that wedged the resettable keystore so that Close hung was found by this check and has been repaired in /repo).")
+              "by itself. The check found five defects, all repaired in /repo and now stated positively (keystore Close under a concurrent second "
+              "call, the refresh manager's unguarded WaitGroup registration, provider/dual.New and fullrt.NewFullRT error / panic paths, the reset "
+              "handshake that wedged the resettable keystore); the two abandoned protocols are kept as theorems about why they were insufficient.")
 LEVEL_NOTE = ("The theorems are about Gallina models of the Close protocols; that the Go code follows them is checked by exploration only "
               "(generated instants of Close, bounded by the generator). Trusted: Coq kernel, vm_compute, synctest, the harness library.")
 
 
-def _notes(desc):
-    out = []
-    for e in desc.get("trace") or []:
-        if e.get("note"):
-            out.append(e["note"])
-    return " ".join(out)
-
-
 def classify(desc, code):
-    """Stable keys of the known findings (each identifies exactly one failure shape)."""
-    if not isinstance(desc, dict):
-        return None
-    pkg, ctor = desc.get("pkg"), desc.get("ctor") or ""
-    trace = desc.get("trace") or []
-    kinds = [e.get("ev") for e in trace]
-    notes = _notes(desc)
-    left = " ".join(desc.get("left") or [])
-    hung = desc.get("hung") or []
-    # a WaitGroup registration racing Close's Wait (refresh manager; reachable through IpfsDHT.RefreshRoutingTable/ForceRefresh)
-    if "WaitGroup is reused before previous Wait has returned" in notes or "WaitGroup misuse" in notes:
-        return "rtrefresh-close-waitgroup-reuse"
-    if pkg == "fullrt" and ctor == "nobootstrap" and "TCtorPanic" in kinds and "nil pointer dereference" in notes:
-        return "fullrt-new-nil-bootstrap-peers"
-    if pkg == "provider/dual" and ctor in ("wan-provider", "lan-provider") and "TCtorPanic" not in kinds and not hung:
-        ok = [e for e in trace if e.get("ev") == "TCtor"]
-        if ok and not ok[0].get("ok"):
-            return "provider-dual-new-leak"
-    if pkg == "provider/keystore":
-        panics = [k for k in kinds if k in ("TCtorPanic", "TClosePanic")]
-        oppanic = [e for e in trace if e.get("ev") == "TOpEnd" and e.get("res") == "RPanic"]
-        if desc.get("concurrent2") and desc.get("second_early") and not hung and not desc.get("bubble") and not panics and not oppanic:
-            early = [e for e in trace if e.get("ev") == "TCloseRet" and e.get("t") == 1 and e.get("live")]
-            other = [e for e in trace if e.get("ev") == "TCloseRet" and e.get("t") == 0 and e.get("live")]
-            end = [e for e in trace if e.get("ev") == "TEnd" and (e.get("live") or e.get("leak") or e.get("hung"))]
-            if early and not other and not end and any(g.get("func", "").endswith(").worker") and "keystore" in g.get("file", "") for g in early[0]["live"]):
-                return "keystore-concurrent-close-returns-early"
+    # the five defects this check found are fixed in /repo (known_findings.json: fixed:): no known-finding keys
     return None
 
 
